@@ -15,7 +15,7 @@ CRYPTO_TRUST = [
 PROPS = {
     "C03": {
         "lean": ["PnaVerif.Props.Consts", "PnaVerif.Props.C03"],
-        "families": ["chunk", "parse", "cipher-sm"],
+        "families": ["chunk", "parse", "cipher-sm", "roundtrip", "split", "truncate", "foreign"],
         "trusted": COMMON_TRUST,
         "text": "slice reader = stream reader proved for all byte strings; correspondence on valid/mutated/hostile inputs",
     },
@@ -46,7 +46,7 @@ PROPS = {
     },
     "C07": {
         "lean": ["PnaVerif.Props.Consts", "PnaVerif.Props.C07"],
-        "families": ["parse", "entry", "codec", "truncate"],
+        "families": ["parse", "entry", "codec", "truncate", "foreign", "hostile-solid"],
         "trusted": COMMON_TRUST,
         "text": "no model read path reaches a panic outcome (proved for all inputs); hostile/mutated/truncated streams through the real readers under catch_unwind",
     },
@@ -66,13 +66,13 @@ PROPS = {
     },
     "C01": {
         "lean": ["PnaVerif.Props.Consts", "PnaVerif.Props.C01"],
-        "families": ["cipher-sm", "roundtrip"],
+        "families": ["cipher-sm", "roundtrip", "foreign"],
         "trusted": COMMON_TRUST + CRYPTO_TRUST,
         "text": "writer partition independence, reader schedule independence and pipeline round trip proved for every lawful cipher/codec; state machines tied by cipher-sm, end to end by roundtrip",
     },
     "C16": {
         "lean": ["PnaVerif.Props.Consts", "PnaVerif.Props.C16"],
-        "families": ["roundtrip"],
+        "families": ["roundtrip", "foreign"],
         "trusted": COMMON_TRUST + CRYPTO_TRUST,
         "text": "decision logic of opening an encrypted entry proved; right/wrong/no password sampled through the public API",
     },
